@@ -51,6 +51,8 @@ typedef int(__stdcall* RVExtensionRegisterCallback)(RVExtensionRegisterCallback_
 
 namespace
 {
+    // the engine does not let arrays grow beyond this many elements
+    const size_t array_size_limit = 9999999;
     value productversion_(runtime& runtime)
     {
         auto vec = std::vector<value>{
@@ -571,7 +573,7 @@ namespace
     value select_array_scalar(runtime& runtime, value::cref left, value::cref right)
     {
         auto arr = left.data<d_array>()->value();
-        auto index = static_cast<int>(std::round(right.data<d_scalar, float>()));
+        auto index = d_scalar::saturate_cast<int>(std::round(right.data<d_scalar, float>()));
 
         if (static_cast<int>(arr.size()) < index || index < 0)
         {
@@ -624,7 +626,7 @@ namespace
             runtime.__logmsg(err::ExpectedArrayTypeMissmatch(runtime.context_active().current_frame().diag_info_from_position(), 1, t_scalar(), arr[0].type()));
             return {};
         }
-        int start = static_cast<int>(std::round(arr[0].data<d_scalar, float>()));
+        int start = d_scalar::saturate_cast<int>(std::round(arr[0].data<d_scalar, float>()));
         if (start < 0)
         {
             runtime.__logmsg(err::NegativeIndexWeak(runtime.context_active().current_frame().diag_info_from_position()));
@@ -644,7 +646,7 @@ namespace
                 runtime.__logmsg(err::ExpectedArrayTypeMissmatch(runtime.context_active().current_frame().diag_info_from_position(), 1, t_scalar(), arr[1].type()));
                 return {};
             }
-            int length = static_cast<int>(std::round(arr[1].data<d_scalar, float>()));
+            int length = d_scalar::saturate_cast<int>(std::round(arr[1].data<d_scalar, float>()));
             if (length < 0)
             {
                 runtime.__logmsg(err::NegativeIndexWeak(runtime.context_active().current_frame().diag_info_from_position()));
@@ -652,7 +654,7 @@ namespace
                 return value(std::make_shared<d_array>());
             }
 
-            return value(std::vector<value>(vec.begin() + start, start + length > static_cast<int>(vec.size()) ? vec.end() : vec.begin() + start + length));
+            return value(std::vector<value>(vec.begin() + start, static_cast<long long>(start) + length > static_cast<long long>(vec.size()) ? vec.end() : vec.begin() + start + length));
         }
         else
         {
@@ -803,10 +805,16 @@ namespace
     }
     value resize_array_scalar(runtime& runtime, value::cref left, value::cref right)
     {
-        auto i = right.data<d_scalar, size_t>();
-        if (i < 0)
+        auto requested = right.data<d_scalar, float>();
+        if (requested != requested || requested < 0)
         {
             runtime.__logmsg(err::NegativeSize(runtime.context_active().current_frame().diag_info_from_position()));
+            return {};
+        }
+        auto i = d_scalar::saturate_cast<size_t>(requested);
+        if (i > array_size_limit)
+        {
+            runtime.__logmsg(err::IndexOutOfRange(runtime.context_active().current_frame().diag_info_from_position(), array_size_limit, i));
             return {};
         }
         left.data<d_array>()->resize(i);
@@ -818,8 +826,8 @@ namespace
         {
             return {};
         }
-        auto from = (int)std::roundf((*right.data<d_array>())[0].data<d_scalar, float>());
-        auto to = (int)std::roundf((*right.data<d_array>())[1].data<d_scalar, float>());
+        auto from = d_scalar::saturate_cast<int>(std::roundf((*right.data<d_array>())[0].data<d_scalar, float>()));
+        auto to = d_scalar::saturate_cast<int>(std::roundf((*right.data<d_array>())[1].data<d_scalar, float>()));
 
         auto arr = left.data<d_array>();
         if (from > to)
@@ -1231,10 +1239,15 @@ namespace
             return {};
         }
 
-        auto index = params[0].data<d_scalar, int>();
+        auto index = d_scalar::saturate_cast<int>(params[0].data<d_scalar, float>());
         if (index < 0)
         {
             runtime.__logmsg(err::NegativeIndex(runtime.context_active().current_frame().diag_info_from_position()));
+            return {};
+        }
+        if (static_cast<size_t>(index) >= array_size_limit)
+        {
+            runtime.__logmsg(err::IndexOutOfRange(runtime.context_active().current_frame().diag_info_from_position(), array_size_limit, static_cast<size_t>(index)));
             return {};
         }
         auto val = params[1];
@@ -1324,7 +1337,7 @@ namespace
     value deleteat_array_scalar(runtime& runtime, value::cref left, value::cref right)
     {
         auto l = left.data<d_array>();
-        auto index = right.data<d_scalar, int>();
+        auto index = d_scalar::saturate_cast<int>(right.data<d_scalar, float>());
         if (index >= static_cast<int>(l->size()))
         {
             runtime.__logmsg(err::IndexOutOfRangeWeak(runtime.context_active().current_frame().diag_info_from_position(), l->size(), index));
@@ -1629,7 +1642,7 @@ namespace
             }
             else
             {
-                i = params_descriptors.at(0).data<d_scalar, int>();
+                i = d_scalar::saturate_cast<int>(params_descriptors.at(0).data<d_scalar, float>());
             }
             if (params_descriptors.size() >= 3 && !params_descriptors.at(2).is<t_array>())
             {
@@ -1696,7 +1709,7 @@ namespace
                         });
                         flag = found != tmp->end();
                     }
-                    else if ((int)current_input_value.data<d_array>()->size() != params_descriptors.at(3).data<d_scalar, int>())
+                    else if ((int)current_input_value.data<d_array>()->size() != d_scalar::saturate_cast<int>(params_descriptors.at(3).data<d_scalar, float>()))
                     { // Check available datatypes
                         flag = false;
                     }
@@ -1831,7 +1844,7 @@ namespace
 
                         flag = found != tmp->end();
                     }
-                    else if ((int)current_input_value.data<d_array>()->size() != params_descriptors.at(3).data<d_scalar, int>())
+                    else if ((int)current_input_value.data<d_array>()->size() != d_scalar::saturate_cast<int>(params_descriptors.at(3).data<d_scalar, float>()))
                     {
                         flag = false;
                     }
